@@ -35,7 +35,7 @@ impl CredentialStore for Spy {
     }
 }
 #[derive(Clone, Default)]
-struct SpyUv { asked: Arc<Mutex<Vec<(bool, bool)>>> }
+struct SpyUv { asked: Arc<Mutex<Vec<(bool, bool)>>>, no_uv: bool }
 #[async_trait::async_trait]
 impl UserValidationMethod for SpyUv {
     type PasskeyItem = Passkey;
@@ -44,7 +44,7 @@ impl UserValidationMethod for SpyUv {
         Ok(UserCheck { presence: true, verification })
     }
     fn is_presence_enabled(&self) -> bool { true }
-    fn is_verification_enabled(&self) -> Option<bool> { Some(true) }
+    fn is_verification_enabled(&self) -> Option<bool> { if self.no_uv { None } else { Some(true) } }
 }
 fn block_on<F: std::future::Future>(f: F) -> F::Output { crate::ceremony::block_on_pub(f) }
 
@@ -75,6 +75,29 @@ pub fn sweep() -> (bool, String) {
     let origin_s = "https://www.example.com:8443";
     let origin = url::Url::parse(origin_s).unwrap();
     let mut n = 0;
+    // an authenticator that cannot verify the user: userVerification preferred / required must be refused, not downgraded
+    for uv in uvs { for reg in [true, false] {
+        let store = Spy { disc: 2, ..Default::default() };
+        let mut setup = Client::new(Authenticator::new(Aaguid::new_empty(), store.clone(), SpyUv::default()));
+        if block_on(setup.register(&origin, creation(None, false, UserVerificationRequirement::Discouraged, None, None, false, 1), DefaultClientData)).is_err() { return (true, "setup registration failed".into()); }
+        let mut client = Client::new(Authenticator::new(Aaguid::new_empty(), store.clone(), SpyUv { no_uv: true, ..Default::default() }));
+        let refused = if reg { matches!(block_on(client.register(&origin, creation(None, false, uv, None, None, false, 3), DefaultClientData)), Err(WebauthnError::AuthenticatorError(0x2b))) }
+            else { let req = CredentialRequestOptions { public_key: PublicKeyCredentialRequestOptions { challenge: vec![8].into(), timeout: None, rp_id: None, allow_credentials: None, user_verification: uv, hints: None, attestation: Default::default(), attestation_formats: None, extensions: None } };
+                   matches!(block_on(client.authenticate(&origin, req, DefaultClientData)), Err(WebauthnError::AuthenticatorError(0x2b))) };
+        let want = uv != UserVerificationRequirement::Discouraged;
+        if refused != want { return (true, format!("{} with userVerification={uv:?} on an authenticator without user verification: refused={refused}, expected {want}", if reg { "register" } else { "authenticate" })); }
+    } }
+    // residentKey on a store that can only hold non-discoverable credentials
+    for (ri, rk) in rks.iter().enumerate() { for require in [false, true] {
+        let store = Spy { disc: 1, ..Default::default() };
+        let mut client = Client::new(Authenticator::new(Aaguid::new_empty(), store.clone(), SpyUv::default()));
+        let r = block_on(client.register(&origin, creation(*rk, require, UserVerificationRequirement::Preferred, None, None, true, 1), DefaultClientData));
+        let want_rk = match rk { Some(ResidentKeyRequirement::Required) => true, Some(ResidentKeyRequirement::Preferred) => false, Some(ResidentKeyRequirement::Discouraged) => false, None => require };
+        match r { Ok(c) => { if want_rk { return (true, format!("non-discoverable-only store, residentKey#{ri} requireResidentKey={require}: a required resident key was accepted")); }
+                             if store.saved.lock().unwrap()[0].1 || c.client_extension_results.cred_props.and_then(|p| p.discoverable) != Some(false) { return (true, format!("non-discoverable-only store, residentKey#{ri} requireResidentKey={require}: rk sent / credProps wrong")); } }
+                  Err(WebauthnError::AuthenticatorError(0x2b)) => if !want_rk { return (true, format!("non-discoverable-only store, residentKey#{ri} requireResidentKey={require}: registration refused although the WebAuthn mapping gives rk=false")); },
+                  Err(e) => return (true, format!("non-discoverable-only store, residentKey#{ri}: {e:?}")) }
+    } }
     for disc in [0u8, 2] { for (ri, rk) in rks.iter().enumerate() { for require in [false, true] { for uv in uvs { for rp in [None, Some("example.com")] { for cred_props in [false, true] {
         n += 1;
         let store = Spy { disc, ..Default::default() };
